@@ -183,7 +183,7 @@ def gen_client_hello(rng):
     # unknown / duplicated extension
     if rng.random() < 0.15 * min(1.0, 4 * p_dev + 0.2):
         exts.append(raw(rng.choice([0xfafa, 0x7777, 35]), bytes(rng.randrange(256) for _ in range(rng.randrange(4)))))
-    dup = rng.random() < 0.06 * min(1.0, 4 * p_dev + 0.1)
+    dup = False      # duplicated extension types are rejected by ClientHello.parse since /repo 6da5459 (mutation oracle covers them)
     if dup and exts:
         exts.append(rng.choice(exts))
         label.append('dup')
@@ -415,9 +415,9 @@ Definition kind_code (k : string) : Z :=
   if String.eqb k "AssertionError" then 7 else if String.eqb k "UnboundLocalError" then 8 else 99.
 Definition ocode (o : outcome unit) : Z :=
   match o with OK _ => 0 | Alert d => 1000 + d | Raised _ => 2000 | Crash k _ => 3000 + kind_code k end.
-Definition CaseS := (ServerHello_r * ClientHello_r * Settings_r * list Z * Z)%type.
+Definition CaseS := (ServerHello_r * ClientHello_r * Settings_r * bool * list Z * Z)%type.
 Definition chk_sh (c : CaseS) : bool :=
-  let '(sh, ch, st, filtered, code) := c in ocode (ShChecks sh ch st None (fun _ _ _ => filtered)) =? code.
+  let '(sh, ch, st, dempty, filtered, code) := c in ocode (ShChecks sh ch st None dempty (fun _ _ _ => filtered)) =? code.
 '''
 
 
@@ -476,9 +476,7 @@ def gen_server_hello(rng, client_suites, client_sid, offered_alpn=False):
         exts.append(NPNExtension().create([bytearray(b'http/1.1')]))
     if rng.random() < 0.1 * min(1.0, 4 * p_dev + 0.2):
         exts.append(raw(rng.choice([0xfafa, 0x7777]), bytes(rng.randrange(4))))
-    if rng.random() < 0.08 * min(1.0, 4 * p_dev + 0.1) and exts:
-        exts.append(rng.choice(exts))
-        label.append('dup')
+    # (duplicated extension types are rejected by ServerHello.parse since /repo 6da5459)
     rng.shuffle(exts)
     old_suites = [x for x in client_suites if (x >> 8) != 0x13 and x not in (0x00ff, 0x5600)] or [0x2f]
     suite = pick('cs', [old_suites[0], rng.choice(old_suites), rng.choice(client_suites) if client_suites else 0x2f,
@@ -531,6 +529,10 @@ def observe_client(gen_sh, rng, func_name, end_line, start_line=None):
                 reached[0] = True
             if event == 'line' and frame.f_lineno == start_line:
                 captured['entered'] = True
+                try:      # the endpoint's own state the region reads (observation only)
+                    captured['defrag_empty'] = bool(frame.f_locals['self']._defragmenter.is_empty())
+                except Exception:  # noqa
+                    captured['defrag_empty'] = True
             return local
         return local
     sys.settrace(tracer)
@@ -628,9 +630,10 @@ def sh_case(seed):
     except Exception:  # noqa
         filtered = []
     try:
-        out['lit'] = '(%s, %s, %s, %s, %s)' % (to_lit(sh, OBJ('ServerHello'), S['schema'], 'serverHello'),
+        out['lit'] = '(%s, %s, %s, %s, %s, %s)' % (to_lit(sh, OBJ('ServerHello'), S['schema'], 'serverHello'),
                                                to_lit(ch, OBJ('ClientHello'), S['schema'], 'clientHello'),
                                                to_lit(st, OBJ('Settings'), S['schema'], 'settings'),
+                                               vlib.boollit(cap.get('defrag_empty', True)),
                                                vlib.listlit(filtered, vlib.zlit), vlib.zlit(code))
     except SchemaMismatch as e:
         out['tie'] = 'schema mismatch (ServerHello region): %s' % e
